@@ -9,7 +9,7 @@ use crate::common::{keypair_from_seed, peer_from_seed};
 use crate::engine::{CaseFail, CaseOk, CaseResult};
 use crate::f2::{pipe, PipeCfg};
 use crate::{ensure, fail};
-use futures::{FutureExt, StreamExt};
+use futures::StreamExt;
 use litep2p::protocol::{Direction, TransportEvent, TransportService};
 use litep2p::verif::scripted::{Call, ConnCommand, Inject, VerifManager};
 use litep2p::yamux;
@@ -67,11 +67,11 @@ fn note(ledger: &mut Ledger, ev: TransportEvent) {
     *ledger.answers.entry(id).or_default() += 1;
 }
 
-fn read_events(service: &mut TransportService, ledger: &mut Ledger, max: usize) {
+fn read_events(service: &mut TransportService, gate: &std::sync::Arc<crate::common::WakeGate>, ledger: &mut Ledger, max: usize) {
     for _ in 0..max {
-        match tokio::task::unconstrained(service.next()).now_or_never() {
-            Some(Some(ev)) => note(ledger, ev),
-            _ => break,
+        match crate::common::next_if_woken(service, gate) {
+            Some(ev) => note(ledger, ev),
+            None => break,
         }
     }
 }
@@ -111,12 +111,11 @@ pub fn run_case(c: &Case) -> CaseResult {
         }
         let conn = conn.ok_or_else(|| CaseFail::new("C08/harness-no-connection", "the dial did not reach the transport"))?;
         let mut ledger = Ledger { issued: BTreeMap::new(), answers: BTreeMap::new(), unknown: None, read: 0 };
+        let gate = crate::common::WakeGate::new();
         let mut established = false;
-        for _ in 0..4 {
-            if let Some(Some(ev)) = tokio::task::unconstrained(service.next()).now_or_never() {
-                if matches!(ev, TransportEvent::ConnectionEstablished { .. }) {
-                    established = true;
-                }
+        while let Some(ev) = crate::common::next_if_woken(&mut service, &gate) {
+            if matches!(ev, TransportEvent::ConnectionEstablished { .. }) {
+                established = true;
             }
         }
         if !established {
@@ -153,7 +152,7 @@ pub fn run_case(c: &Case) -> CaseResult {
                 let mut drained_here = 0usize;
                 let mut drain = || {
                     drained_here += 1;
-                    read_events(&mut service, &mut ledger, c.drain.max(1) as usize);
+                    read_events(&mut service, &gate, &mut ledger, c.drain.max(1) as usize);
                 };
                 let r = if success {
                     let stream = control.open_stream().await.map_err(|e| CaseFail::new("C08/harness-yamux-open-failed", format!("{e:?}")))?;
@@ -171,13 +170,13 @@ pub fn run_case(c: &Case) -> CaseResult {
                 answered += 1;
                 if head_start_left > 0 {
                     let k = head_start_left.min(1);
-                    read_events(&mut service, &mut ledger, k);
+                    read_events(&mut service, &gate, &mut ledger, k);
                     head_start_left -= k;
                 }
             }
         }
         // now the protocol catches up
-        read_events(&mut service, &mut ledger, usize::MAX >> 1);
+        read_events(&mut service, &gate, &mut ledger, usize::MAX >> 1);
         t1.abort();
         t2.abort();
 
